@@ -5,7 +5,17 @@ CFG = {'streams': [{'name': 'C20',
               'thorough_seeds': 2,
               'what_fails': 'failing runs: 2 model succeeds; 4 root cause differs; 20 the outermost statement context(s) (statement location, stanza '
                             "location, matched node position and kind) differ from the model's; 50 a non-cancellation error has no statement "
-                            'context; 51 display_pretty does not show the cited DSL/source lines'}],
+                            'context; 51 display_pretty does not show the cited DSL/source lines'},
+             {'name': 'C20r',
+              'n_quick': 120,
+              'n_thorough': 1200,
+              'what_fails': 'rendering of the error of a failing run (ExecutionError::display_pretty and the plain Display) against '
+                            'Model/ErrRender.v: 52 display_pretty panicked; 51 the real text lacks, for some statement context of the chain, '
+                            'one of the three citations path:row+1:col+1: (statement, stanza, matched node) or the text of a cited line that '
+                            'exists in the given DSL/source text (both judged on the real text alone); 61 the pretty text differs from '
+                            "render_pretty of the walked chain; 62 the plain Display differs from render_plain; 63 the model's own text does "
+                            'not show a context (excluded by the theorems); 64 the harness could not read a Context from its Debug rendering',
+              'model_only_codes': [61, 62, 64]}],
  'rule': 'generated programs with exactly one injected runtime fault (type error, unknown function, conflicting attribute, undefined edge, bad '
          'arity, eager faults in if/scan/for sources) at a random statement position and depth, plus naturally failing generated programs; both '
          'modes; non-trivial = fault at depth >= 1 or a two-statement (conflict) context',
@@ -22,8 +32,9 @@ CFG = {'streams': [{'name': 'C20',
  'partial': ['lazy: WHICH statement of the stanza a context cites (the statement that created the failing thunk / deferred statement, or the '
              "enclosing top-level statement for failures in if/for blocks during execution) is compared by the stream with the model's; the "
              'theorem says it is a statement of the stanza of an executed (stanza, match) pair, with that pair\'s node',
-             'the KIND and source position displayed for the matched node, and the DSL/source excerpts of display_pretty, are checked by the '
-             'stream only (the model identifies syntax nodes by index)'],
+             'the KIND and source position recorded for the matched node are compared by the stream only (the model of the execution '
+             'identifies syntax nodes by index); the RENDERING of a recorded chain is modelled (Model/ErrRender.v, theorems '
+             'render_pretty_*) and compared character by character by stream C20r'],
  'assumptions': ['tree-sitter queries are an external: raw matches are recorded by calling QueryCursor::matches directly on the stanza queries and '
                  'on the merged file query',
                  'regex crate: modelled by Model/Regex.v on the generated sub-language (validated by stream C10rx); stdlib functions: Model/Stdlib.v '
